@@ -115,12 +115,13 @@ def fimg : List Cell :=
 def fws : List (Sys Cell) :=
   finalizeProto 0 10 [(10, objCells 40 1)] 11 (objCells 32 3) (objCells 33 2) (objCells 2 2)
 
-/-- **the first syscall of `finalize_indexes` removes the only TOC** (prefix 1 … 4: `open` fails) -/
+/-- **the first syscall of `finalize_indexes` removes the only TOC** (prefixes 1 and 2: `open` fails;
+    from the TOC write on the legacy tail scan finds the new TOC) -/
 theorem C02_finalize_counterexample :
     (recover fenv ug fimg).logical = some [⟨0, 10, true⟩] ∧
     (recover fenv ug (applyAll fimg fws)).logical = some [⟨0, 10, true⟩] ∧
     recover fenv ug (applyAll fimg (fws.take 1)) = .fail .toc ∧
-    recover fenv ug (applyAll fimg (fws.take 3)) = .fail .toc ∧
+    recover fenv ug (applyAll fimg (fws.take 2)) = .fail .toc ∧
     ¬ AtomicStep fenv ug fimg fws := by
   refine ⟨by decide, by decide, by decide, by decide, ?_⟩
   intro h
